@@ -900,6 +900,13 @@ def correspond(ctx):
             B.add('vector_cart', f'vc2c {hx} {atol_s} {Vs} %d %d %d' % t, r, e,
                   _cmp_close(1e-14, 1e-13), {'cell': label, 'vects': V.tolist(), 'uvw': list(t)},
                   sample={'op': 'vector_crystal_to_cartesian', 'cell': label, 'uvw': list(t)})
+        # fractional three-index vectors (what fromstring('1/2 [1 1 0]') hands over): halves, thirds, quarters, sixths
+        for _ in range(ctx.n(25, 200)):
+            x = [rng.randint(-12, 12) / rng.choice([1, 2, 3, 4, 6]) for _ in range(3)]
+            f = box.vector_crystal_to_cartesian if rng.random() < 0.5 else (lambda y: miller.vector_crystal_to_cartesian(y, box))
+            r, e = _call(f, x)
+            B.add('vector_cart:frac', f'vc2c {hx} {atol_s} {Vs} ' + cm.frs(x), r, e, _cmp_close(1e-14, 1e-13),
+                  {'cell': label, 'vects': V.tolist(), 'uvw': x})
         # four-index input: hexagonal cells accept (guard), all others raise
         for q in rng.sample(quads_ok, ctx.n(60, 400)):
             for d in (0, 0, 0, 1):
@@ -1251,7 +1258,7 @@ def _o_vector_cart(ctx, np, miller, box, label, uvw, spec=None):
     does not see the box origin."""
     uvw = list(uvw)
     V = [[_F(x) for x in row] for row in box.vects]
-    want = [sum(uvw[i] * V[i][j] for i in range(3)) for j in range(3)]
+    want = [sum(_F(uvw[i]) * V[i][j] for i in range(3)) for j in range(3)]
     scale = max(1.0, max(abs(float(x)) for x in want))
     replay = {'op': 'vector_cart', 'uvw': uvw, 'vects': box.vects.tolist(), 'origin': box.origin.tolist(), 'cell': label}
     if spec is not None:
@@ -1723,6 +1730,96 @@ def _o_family_obj(ctx, np, cell, spec, box):
                 return
 
 
+def _exact_family(par, rtol, atol):
+    """the documented predicates evaluated exactly (Fractions) on six given parameters:
+    isclose(x, y) = |x - y| <= atol + rtol |y|;  -> (family or None, [7 bools]) in the documented order."""
+    a, b, c, al, be, ga = (_F(x) for x in par)
+    rt, at = _F(rtol), _F(atol)
+
+    def cl(x, y):
+        return abs(x - y) <= at + rt * abs(y)
+    n90, n120 = Fraction(90), Fraction(120)
+    bits = [cl(a, b) and cl(a, c) and cl(al, n90) and cl(be, n90) and cl(ga, n90),
+            cl(a, b) and cl(al, n90) and cl(be, n90) and cl(ga, n120),
+            cl(a, b) and not cl(a, c) and cl(al, n90) and cl(be, n90) and cl(ga, n90),
+            cl(a, b) and cl(a, c) and cl(al, be) and cl(al, ga) and not cl(al, n90),
+            not cl(a, b) and not cl(a, c) and cl(al, n90) and cl(be, n90) and cl(ga, n90),
+            not cl(a, b) and not cl(a, c) and cl(al, n90) and not cl(be, n90) and cl(ga, n90),
+            not cl(a, b) and not cl(a, c) and not cl(al, be) and not cl(al, ga)]
+    fam = None
+    for f, bit in zip(FAMILIES, bits):
+        if bit:
+            fam = f
+            break
+    return fam, bits
+
+
+def _boundary_margin(par, rtol, atol):
+    """smallest relative distance of any of the tested differences from its isclose threshold (to exempt cases a
+    rounding of the float evaluation could flip)."""
+    a, b, c, al, be, ga = (float(x) for x in par)
+    m = 1.0
+    for x, y in ((a, b), (a, c), (al, 90.0), (be, 90.0), (ga, 90.0), (ga, 120.0), (al, be), (al, ga)):
+        thr = atol + rtol * abs(y)
+        m = min(m, abs(abs(x - y) - thr) / max(thr, 1e-300))
+    return m
+
+
+def _o_family_boundary(ctx, np, case):
+    """Box objects whose parameters lie just inside / just outside the tolerances ASKED FOR: identifyfamily and the
+    seven predicates, called with those tolerances (keywords, positionally, or in the other keyword order), through
+    the Box methods and the stand-alone functions, answer as the documented comparisons evaluated exactly do."""
+    import atomman as am
+    from atomman.tools import crystalsystem
+    rtol, atol, style = case['rtol'], case['atol'], case['style']
+    box, e0 = _call(lambda: am.Box(**case['abc']))
+    if e0 is not None:
+        return
+    if case.get('rot'):
+        box = am.Box(vects=_move(box.vects, [[Fraction(x) for x in r] for r in case['rot']]), origin=case['origin'])
+    par = _params(box)
+    if _boundary_margin(par, rtol, atol) < 1e-6:
+        return
+    want = _exact_family(par, rtol, atol)
+    replay = {'op': 'family_boundary', 'case': case}
+    if style == 0:
+        kw = dict(rtol=rtol, atol=atol)
+        got, e = _call(lambda: (box.identifyfamily(**kw), [bool(getattr(box, p)(**kw)) for p in PREDS]))
+    elif style == 1:
+        got, e = _call(lambda: (box.identifyfamily(rtol, atol), [bool(getattr(box, p)(rtol, atol)) for p in PREDS]))
+    else:
+        got, e = _call(lambda: (crystalsystem.identifyfamily(box, atol=atol, rtol=rtol),
+                                [bool(getattr(crystalsystem, p)(box, atol=atol, rtol=rtol)) for p in PREDS]))
+    who = 'Box methods' if style < 2 else 'crystalsystem functions'
+    if e is not None or got[0] != want[0] or got[1] != want[1]:
+        ctx.violate('family:tolerances', f'{who} with rtol={rtol}, atol={atol} on a cell with a..gamma = {par}: identifyfamily = '
+                    f'{e or got[0]!r}, predicates {None if e else [int(b) for b in got[1]]}; the documented comparisons at these '
+                    f'tolerances give {want[0]!r}, {[int(b) for b in want[1]]}', replay)
+
+
+def _gen_boundary_case(rng, it):
+    rtol, atol = rng.choice([(2.0 ** -10, 2.0 ** -20), (1e-5, 1e-8), (2.0 ** -6, 2.0 ** -3), (2.0 ** -7, 2.0 ** -9)])
+
+    def near(x):
+        tol = atol + rtol * abs(x)
+        return x + rng.choice([0.0, 0.5, 0.9, 1.1, 2.0, 40.0, -0.5, -0.9, -1.1, -2.0, -40.0]) * tol
+    while True:
+        a = cm.dyadic(rng, 2, 9, 4)
+        b = rng.choice([near(a), near(a), cm.dyadic(rng, 2, 9, 4)])
+        c = rng.choice([near(a), near(a), cm.dyadic(rng, 2, 9, 4)])
+        al = rng.choice([near(90.0), near(90.0), cm.dyadic(rng, 60, 120, 2)])
+        be = rng.choice([near(90.0), near(al), cm.dyadic(rng, 60, 120, 2)])
+        ga = rng.choice([near(90.0), near(120.0), near(60.0), near(al), cm.dyadic(rng, 60, 120, 2)])
+        ca, cb, cg = (math.cos(math.radians(x)) for x in (al, be, ga))
+        if 1 - ca * ca - cb * cb - cg * cg + 2 * ca * cb * cg >= 0.05:
+            break
+    rot = None
+    if it % 3 == 1:
+        rot = [[str(x) for x in r] for r in _rot_matrix(rng)]
+    return {'abc': dict(a=a, b=b, c=c, alpha=al, beta=be, gamma=ga), 'rtol': rtol, 'atol': atol, 'style': it % 3,
+            'rot': rot, 'origin': _gen_origin(rng)}
+
+
 def _o_params(ctx, np, box, label, spec=None):
     """Box.a..gamma are the lengths of and angles between the ACTUAL cell vectors (exact Gram matrix of box.vects)."""
     V = [[_F(x) for x in row] for row in box.vects]
@@ -1837,6 +1934,11 @@ def search(ctx, broken):
                    _o_normal, ctx, np, box, label, t, rng, None, spec, entry)
         for t in vsel:
             ctx.stats.case('oracle:vector_cart', (label, ci, t))
+            _guard(ctx, 'vector_cart', {'op': 'vector_cart', 'uvw': list(t), 'spec': spec, 'cell': label},
+                   _o_vector_cart, ctx, np, miller, box, label, t, spec)
+        for _ in range(ctx.n(20, 150)):         # fractional vectors: 1/2 [1 1 0], 1/3 [1 1 -2 0] as three indices, ...
+            t = [rng.randint(-12, 12) / rng.choice([2, 3, 4, 6]) for _ in range(3)]
+            ctx.stats.case('oracle:vector_cart', (label, ci, tuple(t)))
             _guard(ctx, 'vector_cart', {'op': 'vector_cart', 'uvw': list(t), 'spec': spec, 'cell': label},
                    _o_vector_cart, ctx, np, miller, box, label, t, spec)
         ctx.stats.case('oracle:params', (label, ci))
@@ -1985,6 +2087,11 @@ def search(ctx, broken):
         if it % 5 == 0:
             _guard(ctx, 'params', {'op': 'params', 'spec': spec, 'cell': cell['label']}, _o_params, ctx, np, box,
                    cell['label'], spec)
+    #    ... and at the tolerances asked for: cells just inside / outside non-default tolerances
+    for it in range(ctx.n(400, 5000) * mult):
+        case = _gen_boundary_case(rng, it)
+        ctx.stats.case('oracle:family-tolerances', str(case))
+        _guard(ctx, 'family:tolerances', {'op': 'family_boundary', 'case': case}, _o_family_boundary, ctx, np, case)
 
 
 def _replay(ctx, payload):
@@ -2015,6 +2122,8 @@ def _replay(ctx, payload):
         _o_plane4_guard(ctx, np, hb, ob, r.get('otherlabel', '?'), r['quad'], r.get('hexspec'), r.get('otherspec'))
     elif op == 'family_obj':
         _o_family_obj(ctx, np, r['cell'], r['spec'], _build(r['spec'], None))
+    elif op == 'family_boundary':
+        _o_family_boundary(ctx, np, r['case'])
     elif op == 'params':
         _o_params(ctx, np, _build(_spec_of(r), None), r.get('cell', '?'), r.get('spec'))
     elif op == 'guard_array':
